@@ -182,6 +182,14 @@ def dec(e):
         return big[::2]
     if k == "arr":
         return np.array(e[1], dtype=e[2])
+    if k == "romask":  # read-only mask
+        a = np.array(e[1], dtype=bool)
+        a.flags.writeable = False
+        return a
+    if k == "roarr":  # read-only index array
+        a = np.array(e[1], dtype=e[2])
+        a.flags.writeable = False
+        return a
     if k == "list":
         return list(e[1])
     if k == "slice":
@@ -227,6 +235,8 @@ def atom_indices(n, tier):
             out.append(["mask", list(bits)])
     if n:
         out.append(["smask", [i != 0 for i in range(n)]])
+        out.append(["romask", [i != n - 1 for i in range(n)]])
+        out.append(["roarr", [n - 1], "int64"])
     for k in (0, 1, 2):
         for perm in itertools.permutations(range(n), k):
             out.append(["arr", list(perm), "int64"])
@@ -1031,9 +1041,9 @@ def index_class(e, m, axis_len=None):
     if k == "slice":
         st = e[1][2]
         return "slice" + ("_negstep" if (st or 1) < 0 else "")
-    if k in ("mask", "smask"):
+    if k in ("mask", "smask", "romask"):
         return k
-    if k in ("arr", "list"):
+    if k in ("arr", "list", "roarr"):
         v = e[1]
         oor = any(not (-n <= x < n) for x in v)
         return "%s%s%s%s" % (k, "_oor" if oor else "", "_neg" if any(x < 0 for x in v) else "",
